@@ -147,6 +147,7 @@ func execC22(c run.Case) (res run.Result) {
 			}
 			// border labels/icons get no reservation in the grid (GetMargin handles OUTSIDE_* only)
 			var parts []layPart
+			offset := 0.0
 			cell := c22Cell{id: ch.AbsID(), box: layShapeRect(s), in: 2, out: 2}
 			for _, p := range layExtent(s) {
 				if p.Kind == "label" && strings.HasPrefix(s.LabelPosition, "BORDER") || p.Kind == "icon" && strings.HasPrefix(s.IconPosition, "BORDER") {
@@ -158,7 +159,14 @@ func execC22(c run.Case) (res run.Result) {
 					cell.in, cell.out = math.Max(cell.in, label.PADDING+3), math.Max(cell.out, label.PADDING+3)
 				case "icon":
 					cell.in, cell.out = math.Max(cell.in, label.PADDING+3), d2target.MAX_ICON_SIZE+label.PADDING+2
+				case "3d", "multiple":
+					// GetMargin ADDS the offset to the label/icon margin on the top and right; drawn,
+					// the offset copy and the label overlap (union, not sum)
+					offset = d2target.THREE_DEE_OFFSET
 				}
+			}
+			if len(parts) > 2 {
+				cell.out += offset
 			}
 			cell.slot, cell.plain = layUnion(parts), len(parts) == 1
 			if nat, ok := natural[ch.AbsID()]; ok {
